@@ -7,6 +7,14 @@ Fail-closed: every statement of `_sliding_window_transform` must match the expec
 function is walked statement by statement; an unknown, missing, extra or reordered statement raises),
 and the sites extracted from the strategy classes must exist exactly once.  Only the expressions are
 regenerated; the surrounding control flow is the hand model (tied by the correspondence run).
+
+`_get_last_window` is pinned AS USED BY THE REDUCERS: every class of _reduce.py that derives from
+`_Reducer` must inherit it from `_BaseWindowForecaster` (statically: known bases only, no override
+unless it has the same recognised label-based shape, no assignment to the attribute, one call per
+`_predict_last_window` whose result is written into the window slots), and the inherited method must
+select `self._y.loc[cutoff - window_length_ + 1 : cutoff]` BY LABEL (gen_lw_lo / gen_lw_hi; `_shift`
+on an integer is pinned as `x + by`).  A positional selection (`.iloc[-window_length:]`) is not
+recognised and fails closed.
 """
 import ast
 import os
@@ -219,20 +227,151 @@ def _strategies(mod, defs):
                  "dirrec X_full concatenation")
 
 
-def _last_window(mod, defs):
-    fn = _find(mod, "_BaseWindowForecaster._get_last_window")
+def _loc_bounds(e, base, what):
+    """`<base>.loc[lo:hi].to_numpy()` -> (lo, hi) ast nodes; anything else (e.g. .iloc, a
+    positional tail) is not recognised"""
+    _need(isinstance(e, ast.Call) and not e.args and not e.keywords
+          and isinstance(e.func, ast.Attribute) and e.func.attr == "to_numpy", what, e)
+    sub = e.func.value
+    _need(isinstance(sub, ast.Subscript) and isinstance(sub.value, ast.Attribute)
+          and sub.value.attr == "loc" and _u(sub.value.value) == base
+          and isinstance(sub.slice, ast.Slice) and sub.slice.step is None
+          and sub.slice.lower is not None and sub.slice.upper is not None,
+          what + ": expected a label-based slice %s.loc[lo:hi]" % base, e)
+    return sub.slice.lower, sub.slice.upper
+
+
+def _lw_shape(fn, owner):
+    """the label-based last window: returns (shift, lo, hi) as Gallina expressions in wl and c"""
     b = _body(fn)
-    _need(len(b) == 5, "_get_last_window has %d statements, expected 5" % len(b))
+    args = [a.arg for a in fn.args.args]
+    _need(args == ["self"] and not fn.decorator_list, "%s._get_last_window signature" % owner)
+    _need(len(b) == 5, "%s._get_last_window has %d statements, expected 5" % (owner, len(b)))
     _need(_u(b[0]) == "cutoff = self.cutoff", "stmt 1", b[0])
     v = _assign(b[1], "start")
     _need(isinstance(v, ast.Call) and _u(v.func) == "_shift" and len(v.args) == 1
           and _u(v.args[0]) == "cutoff" and len(v.keywords) == 1 and v.keywords[0].arg == "by",
           "start = _shift(cutoff, by=...)", b[1])
-    defs.append(("gen_lw_shift", "wl", "Z", _expr(v.keywords[0].value, ENV)))
-    _need(_u(b[2]) == "y = self._y.loc[start:cutoff].to_numpy()", "stmt 3", b[2])
-    _need(_u(b[3]) == "X = self._X.loc[start:cutoff].to_numpy() if self._X is not None else None",
-          "stmt 4", b[3])
+    shift = _expr(v.keywords[0].value, ENV)
+    env = {"cutoff": "c", "start": "(c + %s)" % shift}      # _shift(x, by) = x + by on integers
+    lo, hi = _loc_bounds(_assign(b[2], "y"), "self._y", "stmt 3 (window of y)")
+    glo, ghi = _expr(lo, env), _expr(hi, env)
+    x = _assign(b[3], "X")
+    _need(isinstance(x, ast.IfExp) and _u(x.test) == "self._X is not None" and _u(x.orelse) == "None",
+          "stmt 4 (window of X)", b[3])
+    xlo, xhi = _loc_bounds(x.body, "self._X", "stmt 4 (window of X)")
+    _need(_expr(xlo, env) == glo and _expr(xhi, env) == ghi,
+          "stmt 4: X is sliced with other bounds than y", b[3])
     _need(_u(b[4]) == "return (y, X)", "stmt 5", b[4])
+    return shift, glo, ghi
+
+
+REDUCER_PREDICTS = {
+    "_DirectReducer": ["X_pred[:, 0, :] = y_last", "X_pred[:, 1:, :] = X_last.T"],
+    "_MultioutputReducer": ["X_pred[:, 0, :] = y_last", "X_pred[:, 1:, :] = X_last.T"],
+    "_RecursiveReducer": ["last[:, 0, :window_length] = y_last", "last[:, 1:, :window_length] = X_last.T",
+                          "last[:, 1:, window_length:] = X.T"],
+    "_DirRecReducer": ["X_full[:, 0, :window_length] = y_last"],
+}
+FH_MIXINS = ("_OptionalForecastingHorizonMixin", "_RequiredForecastingHorizonMixin")
+
+
+def _defines(cls, name):
+    """nodes in the class body that bind `name`"""
+    hits = []
+    for n in cls.body:
+        if isinstance(n, (ast.FunctionDef, ast.AsyncFunctionDef, ast.ClassDef)) and n.name == name:
+            hits.append(n)
+        elif isinstance(n, (ast.Assign, ast.AnnAssign, ast.AugAssign)):
+            tg = n.targets if isinstance(n, ast.Assign) else [n.target]
+            if any(isinstance(t, ast.Name) and t.id == name for t in ast.walk(ast.Tuple(elts=tg))):
+                hits.append(n)
+    return hits
+
+
+def _last_window(mod, mod2, mod3, defs):
+    """`_get_last_window` AS USED BY THE REDUCERS: every class derived from _Reducer must resolve it
+    to _BaseWindowForecaster._get_last_window (or to an override of the same recognised label-based
+    shape), which selects self._y.loc[cutoff - window_length_ + 1 : cutoff]"""
+    name = "_get_last_window"
+    base_fn = _find(mod2, "_BaseWindowForecaster." + name)
+    base_cls = _find(mod2, "_BaseWindowForecaster")
+    _need(len(_defines(base_cls, name)) == 1, "_BaseWindowForecaster binds %s more than once" % name)
+    shift, lo, hi = _lw_shape(base_fn, "_BaseWindowForecaster")
+    for mx in FH_MIXINS:
+        _need(not _defines(_find(mod2, mx), name), "%s defines %s" % (mx, name))
+    # nobody patches the method from outside a class body
+    for m, fname in ((mod, "_reduce.py"), (mod2, "_sktime.py")):
+        for n in ast.walk(m):
+            if isinstance(n, (ast.Assign, ast.AugAssign, ast.AnnAssign, ast.Delete)):
+                tg = n.targets if isinstance(n, (ast.Assign, ast.Delete)) else [n.target]
+                for t in tg:
+                    for a in ast.walk(t):
+                        _need(not (isinstance(a, ast.Attribute) and a.attr == name),
+                              "%s: %s is assigned from outside a class body" % (fname, name), n)
+            _need(not (isinstance(n, ast.Constant) and n.value == name),
+                  "%s: the string %r is used (setattr / getattr?)" % (fname, name))
+    # the classes of _reduce.py that derive from _Reducer
+    classes = {n.name: n for n in mod.body if isinstance(n, ast.ClassDef)}
+    _need("_Reducer" in classes and [_u(b) for b in classes["_Reducer"].bases] == ["_BaseWindowForecaster"],
+          "_Reducer must derive from _BaseWindowForecaster only")
+    imported = [a.name for n in mod.body if isinstance(n, ast.ImportFrom)
+                and n.module == "sktime.forecasting.base._sktime" for a in n.names]
+    _need(all(x in imported for x in ("_BaseWindowForecaster",) + FH_MIXINS),
+          "_BaseWindowForecaster / the fh mixins are not imported from sktime.forecasting.base._sktime")
+    reducers = {"_Reducer"}
+    changed = True
+    while changed:
+        changed = False
+        for cn, c in classes.items():
+            if cn not in reducers and any(_u(b) in reducers for b in c.bases):
+                reducers.add(cn)
+                changed = True
+    _need(len(reducers) >= 13, "expected _Reducer, 4 strategy classes and 8 public forecasters, found %d"
+          % len(reducers))
+    for cn in sorted(reducers):
+        c = classes[cn]
+        if cn != "_Reducer":
+            for b in c.bases:
+                _need(_u(b) in reducers or _u(b) in FH_MIXINS,
+                      "reducer class %s has the unknown base %s" % (cn, _u(b)))
+        _need(not c.keywords and not c.decorator_list, "reducer class %s has a metaclass / decorator" % cn)
+        for d in _defines(c, name):
+            # an override is accepted only if it is the same recognised label-based selection
+            _need(isinstance(d, ast.FunctionDef), "%s.%s is overridden by a non-function" % (cn, name), d)
+            got = _lw_shape(d, cn)
+            _need(got == (shift, lo, hi), "%s.%s selects another window than the base class" % (cn, name))
+        _need(not _defines(c, "__getattr__") and not _defines(c, "__getattribute__"),
+              "reducer class %s intercepts attribute access" % cn)
+    # how the reducers use it: one call per _predict_last_window, its result is the window
+    uses = [n for n in ast.walk(mod) if isinstance(n, ast.Attribute) and n.attr == name]
+    _need(len(uses) == len(REDUCER_PREDICTS), "expected %d uses of %s in _reduce.py, found %d"
+          % (len(REDUCER_PREDICTS), name, len(uses)))
+    for cn, fills in REDUCER_PREDICTS.items():
+        fn = _find(mod, cn + "._predict_last_window")
+        _unique_stmt(fn, lambda n: isinstance(n, ast.Assign)
+                     and _u(n).replace("(", "").replace(")", "")
+                     == "y_last, X_last = self._get_last_window",
+                     "%s: y_last, X_last = self._get_last_window()" % cn)
+        for fill in fills:
+            _unique_stmt(fn, lambda n, fill=fill: isinstance(n, ast.Assign) and _u(n) == fill,
+                         "%s: %s" % (cn, fill))
+        for v in ("y_last", "X_last"):
+            st = [n for n in ast.walk(fn) if isinstance(n, ast.Name) and n.id == v
+                  and isinstance(n.ctx, ast.Store)]
+            _need(len(st) == 1, "%s: %s is bound %d times" % (cn, v, len(st)))
+    # _shift on an integer time point is x + by
+    sh = _body(_find(mod3, "_shift"))
+    _need([a.arg for a in _find(mod3, "_shift").args.args] == ["x", "by"], "_shift signature")
+    _need(len(sh) == 4 and all(isinstance(x, ast.Assert) for x in sh[:2])
+          and isinstance(sh[2], ast.If) and _u(sh[2].test) == "isinstance(x, pd.Timestamp)"
+          and not sh[2].orelse and _u(sh[3]) == "return x + by", "_shift body (x + by on integers)")
+    _need(any(isinstance(n, ast.ImportFrom) and n.module == "sktime.utils.datetime"
+              and any(a.name == "_shift" and a.asname is None for a in n.names) for n in mod2.body),
+          "_sktime.py does not import _shift from sktime.utils.datetime")
+    defs.append(("gen_lw_shift", "wl", "Z", shift))
+    defs.append(("gen_lw_lo", "wl c", "Z", lo))
+    defs.append(("gen_lw_hi", "wl c", "Z", hi))
 
 
 HEADER = """(* GENERATED by translator/reduce_c05.py from sktime/forecasting/compose/_reduce.py and
@@ -251,7 +390,9 @@ def translate(repo):
     _strategies(mod, defs)
     with open(os.path.join(repo, "sktime/forecasting/base/_sktime.py")) as f:
         mod2 = ast.parse(f.read())
-    _last_window(mod2, defs)
+    with open(os.path.join(repo, "sktime/utils/datetime.py")) as f:
+        mod3 = ast.parse(f.read())
+    _last_window(mod, mod2, mod3, defs)
     out = [HEADER]
     for name, params, ty, body in defs:
         out.append("Definition %s (%s : Z) : %s := %s.\n" % (name, params, ty, body))
